@@ -17,6 +17,14 @@ that the destination is about to release.
   swap, let the copy release the old block); `acqFirst = false` is the order the containers had before
   (release own block, then read and acquire the source).
 
+Order of the three steps inside an acquire-first assignment: the model does *increment, store, release the old object*
+(the `Array old(b); bswap` order of Array / Map / HashMap).  `Shared::operator=` stores before it increments and
+`SmartObject::operator=` releases before it stores (`++p->rc; unref(); _p = p;`).  These differ only in when the destination
+place is overwritten relative to the cascade; the cascade never reads the destination place (it reads the `inner` lists of
+the objects it frees, and the object containing `dst` is pinned by the path from a program variable along which `dst` was
+reached), so the resulting heaps are equal.  That argument is not mechanised: the theorems are about the modelled order, and
+the agreement for `shared` / `smart` is what the `nest` correspondence runs check.
+
 Core Lean only.
 -/
 namespace AslModel.RcNest
